@@ -180,7 +180,7 @@ func TestC04(t *testing.T) {
 		t.Skip()
 	}
 
-	kit.SetChecks(1_500, 12_000)
+	kit.SetChecks(2_500, 10_000)
 	rapid.Check(t, func(rt *rapid.T) {
 		c := c04Case{Prog: genProgram(rt, genOpts{limit: parLimit, maxN: 60, spin: true, maxSpin: 3000})}
 		c.Procs = []int{
